@@ -48,7 +48,8 @@ USES = ["(cond (#f 1) (else 2))", "(let ((q 1)) (+ q 1))", "(my-m 5)", "(and 1 2
         "(sw 5)", "(sw 1 2)", "(sw 7 8 9)", "(pk 1 2)", "(pk (3))", "(pk 4 5 6)", "(my-m)", "(my-m 1 2)",
         "(my-list 1 2 3)", "(my-list)", "(cl 1 2)", "(cl2 1)", "(my-list 4)", "(cl 1 2 3)",
         "(or #f 3)", "(cond (#f 1) (2 => (lambda (v) (* v 10))))", "(case (+ 1 0) ((1) 'one) (else 'other))", "(or #f #f 4)"]
-OTHER = ["(define (twice q) (* 2 q))", "(twice 21)", "(twice 4)", "(define shared 1)", "(set! shared (+ shared 1))", "shared", "(define (f) 'mine)", "(f)", "(car '())", "(undefined-zz)",
+OTHER = ["#!fold-case", "(define Foo 11)", "Foo", "(eqv? 'Abc 'abc)", "(define foo 22)", "(list 'X 'x)", "#!no-fold-case", "(display #!fold-case 1)",
+         "(define (twice q) (* 2 q))", "(twice 21)", "(twice 4)", "(define shared 1)", "(set! shared (+ shared 1))", "shared", "(define (f) 'mine)", "(f)", "(car '())", "(undefined-zz)",
          "(import (scheme base))", "(import (nonexistent lib))", "(define car cdr)", "(car '(1 2))", "(set! undefined-yy 1)",
          "(define v (vector 1 2))", "(vector-set! v 0 'x)", "v", "(1 2", "(define-syntax broken (syntax-rules", ")"]
 
